@@ -225,6 +225,8 @@ KernelCall(w, m, kc) ==
 WriteVal(w, h, idx, v) == SetRet([w EXCEPT !.sto[w.slot[h]].vals[idx + 1] = v], "ok")
 SetVertex(w, m, v, p)  == SetRet([w EXCEPT !.sto[w.mesh[m].posh].vals[v + 1] = p], "ok")
 PersistPos(w, m, on)   == SetPersistentI(w, m, w.mesh[m].posh, on)
+(* the caller copies the handle vertex_positions() into a slot              *)
+PosHandle(w, m, h)     == SetRet(Bind(w, h, w.mesh[m].posh), "ptr")
 
 (* GeometryKernel::make_prop(): request_property("ovm:position"): a shared    *)
 (* property of that name that is already registered - the clone of a source  *)
@@ -318,6 +320,7 @@ Apply(w0, c) ==
     [] c.op = "write"             -> WriteVal(w, c.b, c.l[1], c.l[2])
     [] c.op = "set_vertex"        -> SetVertex(w, c.a, c.l[1], c.l[2])
     [] c.op = "persist_pos"       -> PersistPos(w, c.a, c.f)
+    [] c.op = "pos_handle"        -> PosHandle(w, c.a, c.b)
     [] c.op = "mesh_new"          -> MeshNew(w, c.a, MTypeSeq[c.l[1]])
     [] c.op = "mesh_copy"         -> MeshCopy(w, c.a, c.l[1])
     [] c.op = "mesh_assign"       -> MeshAssign(w, c.a, c.l[1])
@@ -608,6 +611,8 @@ RelC14(p, q, c, ret) ==
     [] c.op = "set_persistent"    -> RelSetPersistent(p, q, c.a, p.slot[c.b], c.f, ret)
     [] c.op = "persist_pos"       -> RelSetPersistent(p, q, c.a, p.mesh[c.a].posh, c.f, ret)
     [] c.op = "set_name"          -> RelSetName(p, q, p.slot[c.b], c.s, ret)
+    [] c.op = "pos_handle"        -> /\ ret = "ptr" /\ NewLive(p, q) = {} /\ q.slot[c.b] = p.mesh[c.a].posh
+                                     /\ Frame(p, q, {}, OldIn(p, c.b), {}, {c.b})
     [] c.op \in {"h_copy", "h_move", "h_drop"} -> RelHandle(p, q, c, ret)
     [] c.op = "clear_props"       -> RelClear(p, q, c.a, {KArg(c)}, TRUE, FALSE, ret)
     [] c.op = "clear_all_props"   -> RelClear(p, q, c.a, Kinds3, TRUE, FALSE, ret)
@@ -674,7 +679,7 @@ RelC13(p, q, c, ret) ==
 Targets(p, c) ==
   CASE c.op \in {"h_copy", "h_move"} -> {MeshOf(p, p.slot[c.l[1]])}
     [] c.op \in {"h_drop", "write", "set_name"} -> {MeshOf(p, p.slot[c.b])}
-    [] c.op \in CreateOps -> {c.a, MeshOf(p, p.slot[c.b])}
+    [] c.op \in CreateOps \cup {"pos_handle"} -> {c.a, MeshOf(p, p.slot[c.b])}
     [] c.op = "teardown"  -> DOMAIN p.mesh
     [] OTHER -> {c.a}
 Independence(p, q, c) ==
